@@ -274,7 +274,11 @@ def check(run, ctx):
     loops = [n for n in ast.walk(vch.node) if isinstance(n, (ast.For, ast.comprehension))]
     uses_all = any(is_call_named(n.iter, "iter_child_nodes") for n in loops)
     if uses_all:
-        run.ok(N5, "python _visit_children", "ast.iter_child_nodes(node): every child")
+        bad = _descent_guard(vch, loops)
+        if bad is None:
+            run.ok(N5, "python _visit_children", "ast.iter_child_nodes(node): every child, and every statement-bearing child is descended into")
+        else:
+            run.finding(N5, "python_analyzer._visit_children", f"guarded-descent:{bad[0]}", f"_visit_children descends only into children satisfying `{bad[1]}`, which leaves out {bad[0]}: Python's statement-bearing child nodes are statements, except handlers and match_case arms, so control structures nested there are never counted", vch.loc)
     else:
         need = shared.statement_fields()
         have = {c.value for c in ast.walk(vch.node) if isinstance(c, ast.Constant) and isinstance(c.value, str)} | {v for c in ast.walk(vch.node) if isinstance(c, ast.Name) for v in (repo.fold(vch.module, c) if isinstance(repo.fold(vch.module, c), (tuple, list, set, frozenset)) else ())}
@@ -338,6 +342,64 @@ def check(run, ctx):
             run.ok(N6, f"{rec['rule']}.{rec['name']}", "no instance-level memoisation of the parsed configuration")
     run.extra["walker_signatures"] = {k: {a: b for a, b in v.items() if a != "loc"} for k, v in sigs.items()}
     return __doc__
+
+
+def _descent_guard(vch, loops):
+    """The recursive visit inside `for child in ast.iter_child_nodes(node)` may be guarded by a type test; the test is
+    evaluated for every concrete ast class that can hold statements (stmt subclasses, ExceptHandler, match_case).
+    Returns None when all of them are descended into, else (missing class names, guard text)."""
+    need = [c for c in vars(ast).values() if isinstance(c, type) and issubclass(c, (ast.stmt, ast.excepthandler, ast.match_case)) and c not in (ast.stmt, ast.excepthandler)]
+
+    def classes(e):
+        if isinstance(e, ast.Tuple):
+            out = []
+            for x in e.elts:
+                c = classes(x)
+                if c is None:
+                    return None
+                out += c
+            return out
+        nm = e.attr if isinstance(e, ast.Attribute) else e.id if isinstance(e, ast.Name) else None
+        c = getattr(ast, nm, None) if nm else None
+        return [c] if isinstance(c, type) else None
+
+    def ev(t, cls):
+        if isinstance(t, ast.Call) and isinstance(t.func, ast.Name) and t.func.id == "isinstance" and len(t.args) == 2:
+            cs = classes(t.args[1])
+            return None if cs is None else issubclass(cls, tuple(cs))
+        if isinstance(t, ast.UnaryOp) and isinstance(t.op, ast.Not):
+            v = ev(t.operand, cls)
+            return None if v is None else not v
+        if isinstance(t, ast.BoolOp):
+            vs = [ev(v, cls) for v in t.values]
+            if any(v is None for v in vs):
+                return None
+            return all(vs) if isinstance(t.op, ast.And) else any(vs)
+        return None
+
+    for loop in loops:
+        if not isinstance(loop, ast.For) or not is_call_named(loop.iter, "iter_child_nodes"):
+            continue
+        for st in loop.body:
+            guards = []  # (test, polarity) pairs enclosing the visit call / skipping it
+            if isinstance(st, ast.If):
+                has_call_body = any(isinstance(c, ast.Call) for b in st.body for c in ast.walk(b))
+                skips = any(isinstance(x, ast.Continue) for x in st.body)
+                if skips:
+                    guards.append((st.test, False))
+                elif has_call_body and not st.orelse:
+                    guards.append((st.test, True))
+            for test, pol in guards:
+                missing = []
+                for c in need:
+                    v = ev(test, c)
+                    if v is None:
+                        continue
+                    if v != pol:
+                        missing.append(c.__name__)
+                if missing:
+                    return (sorted(missing)[:6], ast.unparse(test))
+    return None
 
 
 def _py_inc(f):
